@@ -265,7 +265,7 @@ func init() {
 			}
 		}
 	})
-	geomArgs := func(e ext, id string, opt int64) []string {
+	geomArgs = func(e ext, id string, opt int64) []string {
 		hLimit := math.Pow(2, float64(e.h))
 		k := float64(e.y)
 		if hLimit-1 <= k {
@@ -320,6 +320,9 @@ func init() {
 	_ = fmt.Sprint
 	_ = strconv.Itoa
 }
+
+// geomArgs: the ID, the option and the two oracle row latitudes for the voxel e (whose text, possibly corrupted, is id)
+var geomArgs func(e ext, id string, opt int64) []string
 
 func clampExtF(e ext) ext {
 	m := pow2(e.v)
